@@ -2,8 +2,9 @@
 from . import common
 from engine import query as Q
 from engine.terms import show, subterms
-from engine.guards import Atom, Walker, field_path, chain, Inliner
+from engine.guards import Atom, Walker, field_path, chain, Inliner, some_payload
 from .c07 import loop_head
+from . import folds
 from .phase_gate import SM, sign_blocks
 
 V2 = "zksync_consensus_roles::validator::messages::v2"
@@ -29,41 +30,74 @@ def rule_implied_block(ctx):
     def is_hq(t):
         return t[0] == "call" and t[1] == TQC + "::high_qc"
 
+    inl = Inliner(ctx)
+
+    def qc_number(t):
+        """t is the block number of the timeout certificate's high commit QC: high_qc()...header().number, or the payload
+        of high_qc().map(|qc| qc.header().number)"""
+        if not has_call(t, "TimeoutQC::high_qc"):
+            return False
+        if chain(t)[1][-2:] == ["header()", "number"]:
+            return True
+        if t[0] == "field" and t[2] == "0" and t[1][0] == "downcast" and t[1][2] == "Some":
+            o = t[1][1]
+            if o[0] == "call" and o[1] == "std::option::Option::map" and o[2][1][0] == "closure":
+                body = inl.inline_closure(o[2][1], [some_payload(o[2][0])])
+                return body is not None and chain(body)[1][-2:] == ["header()", "number"] and has_call(body, "TimeoutQC::high_qc")
+        return False
+
+    def vote_number(t):
+        return chain(t)[1][-1:] == ["number"] and has_call(t, "TimeoutQC::high_vote")
+
     def m(a, b):
-        ca, cb = chain(a), chain(b)
-        if ca[1][-1:] == ["number"] and cb[1][-1:] == ["number"]:
-            if has_call(a, "TimeoutQC::high_vote") and has_call(b, "TimeoutQC::high_qc"):
-                return 1
-            if has_call(b, "TimeoutQC::high_vote") and has_call(a, "TimeoutQC::high_qc"):
-                return -1
+        if vote_number(a) and qc_number(b):
+            return 1
+        if vote_number(b) and qc_number(a):
+            return -1
         return 0
     atoms = [Atom("justification", "enum", lambda t: t[0] == "param" and t[1] == 1, ["Commit", "Timeout"]),
              Atom("high_vote", "opt", is_hv, ["None", "Some"]), Atom("high_qc", "opt", is_hq, ["None", "Some"]),
              Atom("cmp(vote.number,qc.number)", "cmp", m, ["<", "=", ">"])]
     tg = {"repropose": [], "next_after_high_qc": [], "first_block": [], "next_after_commit": []}
+    first_names = common.pnames(f, "BlockNumber")
+
+    def classify_number(d):
+        if d[0] == "call" and d[1].endswith("BlockNumber::next"):
+            if has_call(d, "TimeoutQC::high_qc"):
+                return "next_after_high_qc" if qc_number(d[2][0]) else "unrecognised_number"
+            if chain(d[2][0])[1][-2:] == ["header()", "number"]:
+                return "next_after_commit"
+            return "unrecognised_number"
+        if common.is_p(d, first_names):
+            return "first_block"
+        return None
+    rl = Q.ret_locals(f)
     for bi, b in enumerate(f.blocks):
         defs = []
         for s in b["s"]:
             if s["k"] == "assign" and not s["p"].get("pr"):
-                defs.append((s["p"]["l"], T.rvalue(s["r"])))
+                defs.append((s["p"]["l"], T.rvalue(s["r"]), s["r"]["k"]))
         t = b["t"]
         if t["k"] == "call" and not t["dest"].get("pr") and "t" in t:
-            defs.append((t["dest"]["l"], T.call_term(t)))
-        for l, d in defs:
-            if l == 0 and d[0] == "tuple" and len(d[1]) == 2:
+            defs.append((t["dest"]["l"], T.call_term(t), "call"))
+        for l, d, rk in defs:
+            if l in rl and d[0] == "tuple" and len(d[1]) == 2 and rk == "agg":
                 x, y = d[1]
                 if y[0] == "agg" and y[2] == "Some":
-                    ok = chain(x)[1][-1:] == ["number"] and has_call(x, "TimeoutQC::high_vote") and chain(y[3][0][1])[1][-1:] == ["payload"] and has_call(y, "TimeoutQC::high_vote")
-                    tg["repropose" if ok else "unrecognised_some"] = tg.get("repropose" if ok else "unrecognised_some", []) + [bi]
-                elif x[0] == "call" and x[1].endswith("BlockNumber::next") and not has_call(x, "TimeoutQC::high_qc"):
-                    tg["next_after_commit"].append(bi)
-            if f.locals[l].s.endswith("block::BlockNumber") and l != 0:
-                if d[0] == "call" and d[1].endswith("BlockNumber::next") and has_call(d, "TimeoutQC::high_qc") and chain(d[2][0])[1][-2:] == ["header()", "number"]:
-                    tg["next_after_high_qc"].append(bi)
-                elif d[0] == "param" and d[2] == "fork_first_block":
-                    tg["first_block"].append(bi)
+                    ok = vote_number(x) and chain(y[3][0][1])[1][-1:] == ["payload"] and has_call(y, "TimeoutQC::high_vote")
+                    tg.setdefault("repropose" if ok else "unrecognised_some", []).append(bi)
+                elif y[0] == "agg" and y[2] == "None":
+                    k = classify_number(x)
+                    if k is not None:
+                        tg.setdefault(k, []).append(bi)
+            if f.locals[l].s.endswith("block::BlockNumber") and l not in rl and rk in ("call", "use", "agg") and len(T.defs.get(l, ())) >= 2:
+                k = classify_number(d)
+                if k is not None:
+                    tg.setdefault(k, []).append(bi)
     for k in ("repropose", "next_after_high_qc", "first_block", "next_after_commit"):
         ctx.ob(R, "outcome site %s" % k, len(tg.get(k, [])) >= 1, "%d site(s)" % len(tg.get(k, [])), f.loc())
+    ctx.ob(R, "no unrecognised new-block number", not tg.get("unrecognised_number"), "every (number, None) outcome is commit.number+1, high_qc.number+1 or the first block" if not tg.get("unrecognised_number") else "a new-block outcome uses a number that is none of commit.number+1 / high_qc.number+1 / first block", f.loc())
+    tg.pop("unrecognised_number", None)
     ctx.ob(R, "no unrecognised re-proposal", not tg.get("unrecognised_some"), "every Some(..) outcome re-proposes the high vote's own number and payload" if not tg.get("unrecognised_some") else "a re-proposal outcome does not return (high_vote.number, Some(high_vote.payload))", f.loc())
     W = Walker(ctx, f, atoms)
     names, tab = W.table(tg)
@@ -125,6 +159,19 @@ def rule_high_vote(ctx):
     okq = [c["q"] for c in T.calls() if c["q"].startswith(SCHED + "::") and c["q"].endswith("threshold")] == [SCHED + "::subquorum_threshold"]
     ctx.ob(R, "threshold function", okq, "the qualifying bound is Schedule::subquorum_threshold()" if okq else "threshold calls: %s" % [c["q"].split("::")[-1] for c in T.calls() if c["q"].endswith("threshold")], f.loc())
     flt = [a for c in T.calls() if c["q"] == "std::iter::Iterator::filter" for a in T.args_of(c) if a[0] == "closure"]
+    if not flt:
+        # explicit-loop shape
+        def is_w(t):
+            return chain(t)[1][-1:] == ["1"] and any(x[0] == "call" and x[1] == "std::iter::Iterator::next" for x in subterms(t))
+
+        def is_t(t):
+            return any(x[0] == "call" and x[1] == SCHED + "::subquorum_threshold" for x in subterms(t))
+        st, txt = folds.unique_above_threshold_loop(ctx, f, is_w, is_t)
+        if st == "unknown":
+            ctx.note("C02.2 selection of the unique qualifying header: shape not recognised (%s) - not decided" % txt)
+        ctx.ob(R, "qualifying comparison", st != "wrong", txt if st == "ok" else ("undecided shape (not reported): " + txt if st == "unknown" else txt), f.loc())
+        ctx.ob(R, "exactly one qualifying header", st != "wrong", txt if st == "ok" else ("undecided shape (not reported): " + txt if st == "unknown" else "high_vote does not return the unique header reaching the subquorum: " + txt), f.loc())
+        return
     okc = False
     for cl in flt:
         g = ctx.F.by_qname.get(cl[1], [None])[0]
@@ -177,6 +224,18 @@ def rule_high_qc(ctx):
             g = ctx.F.by_qname.get(fm[0][2][1][1], [None])[0]
             rt = Inliner(ctx).ret_term(g) if g else None
             ok1 = rt is not None and chain(rt)[1][-1:] == ["high_qc"] and has_call(src, "BTreeMap::keys")
+    if not ok:
+        def cur_key(t):
+            return chain(t)[1][-2:] == ["view()", "number"]
+
+        def new_key(t):
+            return chain(t)[1][-2:] == ["view()", "number"] and any(x[0] == "field" and x[2] == "high_qc" for x in subterms(t))
+        st, txt = folds.max_by_loop(ctx, f, cur_key, new_key)
+        from_keys = any(c["q"].endswith(("BTreeMap::keys", "BTreeMap::iter")) for c in ctx.T(f).calls())
+        if st == "unknown":
+            ctx.note("C02.3 high_qc: shape not recognised (%s) - not decided" % txt)
+        ctx.ob(R, "high_qc term", st != "wrong" and (st == "unknown" or from_keys), txt if st == "ok" else ("undecided shape (not reported): " + txt if st == "unknown" else "high_qc is not the certificate with the highest view: " + txt), f.loc())
+        return
     ctx.ob(R, "high_qc term", ok and ok1 and ok2, "map.keys().filter_map(|m| m.high_qc).max_by_key(|qc| qc.view().number)" if ok and ok1 and ok2 else "high_qc = %s" % (show(t)[:160] if t else None), f.loc())
 
 
